@@ -220,18 +220,22 @@ def _worker_init():
     )
 
 
+_CASE_CACHE: dict = {}
+
+
 def run_cases_in_worker(args):
     modname, tier, seed, case_ids = args
     _worker_init()
     import importlib
 
     mod = importlib.import_module(modname)
-    wanted = set(case_ids)
+    ck = (modname, tier, seed)
+    if ck not in _CASE_CACHE:
+        _CASE_CACHE[ck] = {c.id: c for c in mod.cases(tier, seed)}
+    table = _CASE_CACHE[ck]
     out = []
-    for case in mod.cases(tier, seed):
-        if case.id not in wanted:
-            continue
-        out.append(run_one(mod.PROPERTY, case, tier, seed))
+    for cid in case_ids:
+        out.append(run_one(mod.PROPERTY, table[cid], tier, seed))
     return out
 
 
@@ -351,12 +355,12 @@ def run_property(mod, tier: str, seed: int, replay: str | None = None, jobs: int
         import multiprocessing as mp
 
         ctxmp = mp.get_context("spawn")
-        # static round-robin partition keeps the enumeration deterministic
-        chunks = [ids[i::jobs] for i in range(jobs)]
+        # one case per task, dynamically scheduled (results are re-ordered below, so the report is
+        # independent of scheduling)
         with ctxmp.Pool(jobs) as pool:
             for part in pool.imap_unordered(
                 run_cases_in_worker,
-                [(mod.__name__, tier_for_run, seed, ch) for ch in chunks if ch],
+                [(mod.__name__, tier_for_run, seed, [cid]) for cid in ids],
             ):
                 results.extend(part)
         order = {cid: i for i, cid in enumerate(ids)}
